@@ -335,7 +335,7 @@ struct P_C17a
         PG g(ch); Case c; std::string v = g.pattern();
         auto pos = [&](const std::string& s) { return s.empty() ? size_t(0) : size_t(ch.below(uint32_t(s.size() + 1))); };
         std::string m = v;
-        switch (ch.below(12))
+        switch (ch.below(13))
         {
         case 0: { // delete one ')' / ']' / '}' / '('
             std::vector<size_t> cand; for (size_t i = 0; i < v.size(); ++i) if (strchr(")]}(", v[i])) cand.push_back(i);
@@ -347,10 +347,11 @@ struct P_C17a
         case 4: { switch (ch.below(4)) { case 0: m = "|" + v; break; case 1: m = v + "|"; break; case 2: { size_t p = v.find('|'); if (p != std::string::npos) m.insert(p, "|"); else m = v + "||a"; break; } default: m = "(|" + v + ")"; break; } c.labels.push_back("mut:empty-alternative"); break; }
         case 5: { m.insert(pos(v), std::string(1, char(ch.chance(1, 2) ? ch.below(32) : 0x7f + ch.below(129)))); c.labels.push_back("mut:raw-byte"); break; }
         case 6: m = v + "\\"; c.labels.push_back("mut:trailing-backslash"); break;
-        case 7: m = v + "["; if (ch.chance(1, 2)) m += "a"; if (ch.chance(1, 3)) m += "-"; c.labels.push_back("mut:unterminated-set"); break;
+        case 7: m = v + "["; if (ch.chance(1, 3)) m += "^"; if (ch.chance(1, 2)) m += "a"; if (ch.chance(1, 3)) m += "-"; if (ch.chance(1, 6)) m += "\\"; c.labels.push_back("mut:unterminated-set"); break;
         case 8: m.insert(pos(v), std::string(1, "()[]{}*+?|\\^-."[ch.below(15)])); c.labels.push_back("mut:insert-special"); break;
         case 9: if (!v.empty()) m.erase(pos(v) % v.size(), 1); c.labels.push_back("mut:delete-any"); break;
         case 10: m = v + ")"; c.labels.push_back("mut:extra-close"); break;
+        case 11: if (v.size() >= 2) m = v.substr(0, 1 + ch.below(uint32_t(v.size() - 1))); c.labels.push_back("mut:truncate"); break;   // every proper prefix of a valid pattern: the scan ends in the middle of some construct
         default: c.labels.push_back("unmutated"); break;
         }
         c.pat = m;
